@@ -260,7 +260,9 @@ def lin_case(draw):
             "a": draw(st.sampled_from([1.0, -1.0, 2.5, 0.0, 1e-3, -7.0])),
             "b": draw(st.sampled_from([1.0, 0.5, -3.0, 100.0])),
             "start": draw(st.sampled_from([0.0, 1.0, -2.5, 1e3])),
-            "start2": draw(st.sampled_from([0.0, 4.0, -1.0]))}
+            "start2": draw(st.sampled_from([0.0, 4.0, -1.0])),
+            # sampled signals as stored by loggers: integer counts
+            "signal_dtype": draw(st.sampled_from(["float64", "float64", "float64", "int64", "int32"]))}
 
 
 def run_lin(case):
@@ -274,6 +276,12 @@ def run_lin(case):
     s1 = rng.standard_normal(nt)
     s2 = np.sin(np.arange(nt) * rng.uniform(0.01, 1.0)) + rng.uniform(-1, 1)
     a, b = case["a"], case["b"]
+    sdt = case.get("signal_dtype", "float64")
+    if sdt != "float64":
+        # integer-valued samples in an integer array; integer weights keep the combination in that type
+        s1 = np.round(10 * s1).astype(sdt)
+        s2 = np.round(10 * s2).astype(sdt)
+        a, b = (int(round(a)) if abs(a) >= 1 else 2), (int(round(b)) if abs(b) >= 1 else 3)
     i1 = np.asarray(TI.integrate(t, s1, order, n, 0.0))
     i2 = np.asarray(TI.integrate(t, s2, order, n, 0.0))
     i12 = np.asarray(TI.integrate(t, a * s1 + b * s2, order, n, 0.0))
@@ -296,6 +304,8 @@ def run_lin(case):
     classes = [f"order{order}_n{n}", "len>=1000" if nt >= 1000 else "len<1000"]
     if case["grid"]["jitter"]:
         classes.append("sub_1pct_jitter")
+    if sdt != "float64":
+        classes.append("integer_typed_signal")
     return {"nontrivial": st_ != 0 or (a != 0 and nt > order + 2), "classes": classes}
 
 
